@@ -78,6 +78,11 @@ pub const CONTEXTS: &[(&str, &str, &str)] = &[
     ("amp-last-in-loop", "for q__ in 1; do { ", "\n} & done; wait"),
     ("amp-last-in-if", "if true; then { ", "\n} & fi; wait"),
     ("amp-last-in-case", "case a in a) { ", "\n} & ;; esac; wait"),
+    // the job collected by `wait` with a job specification (the job's way of ending must stay the job's)
+    ("background-wait-jobspec", "{ ", "\n} & wait %1"),
+    ("background-wait-current", "{ ", "\n} & wait %%"),
+    ("background-wait-jobspec-in-function", "bwf() { { ", "\n} & wait %1; }; bwf"),
+    ("background-wait-jobspec-in-loop", "for q__ in 1 2; do { ", "\n} & wait %+; done"),
 ];
 
 /// Options of the PARENT under which the same contexts must still isolate (set before the state dump).
@@ -114,6 +119,7 @@ fn scrub(v: &mut Value) {
     if let Some(f) = v.get_mut("funcs").and_then(|f| f.get_mut("functions")).and_then(|f| f.as_object_mut()) {
         f.remove("fsb");
         f.remove("afn");
+        f.remove("bwf");
     }
     if let Some(env) = v.get_mut("env") {
         strip(env);
